@@ -379,6 +379,21 @@ class Sym:
                 if rn * rn == fr.numerator and rd * rd == fr.denominator:
                     C.memo[key] = (rat(Fr(rn, rd)), c0)
                     done = True
+            if not done and getattr(C, 'exact_sqrt', False):
+                from . import poly
+                ex_ = paths.CUR
+                pc_ = list(ex_.pc) if ex_ is not None and getattr(ex_, 'active', False) else []
+                t_ = poly.exact_sqrt(c0, C, pc_)
+                if t_ is not None and not pc_:
+                    C.memo[key] = (t_, c0)
+                    done = True
+                elif t_ is not None:
+                    # the sign was decided under the current path condition: valid on this path
+                    # only, so it is not memoised
+                    y = Sym({C.zero: t_})
+                    if not s.nil().co:
+                        return y
+                    return y * s._sqrt_series(c0)
             if not done:
                 y = C.fresh('sq')
                 C.cons += [y * y == c0, y >= 0]
@@ -388,6 +403,10 @@ class Sym:
         y = Sym({C.zero: C.memo[key][0]})
         if not s.nil().co:
             return y
+        return y * s._sqrt_series(c0)
+
+    def _sqrt_series(s, c0):
+        """sqrt(1 + nil/c0) as a series"""
         w = s.nil() * Sym({C.zero: c0}).inv()
         res = J(1)
         p = J(1)
@@ -399,7 +418,7 @@ class Sym:
             if not p.co:
                 break
             res = res + p * b
-        return y * res
+        return res
 
     def __pow__(s, p):
         if isinstance(p, (int, np.integer)) and not isinstance(p, bool):
@@ -832,9 +851,9 @@ def arcsin(x, match=False):
     return atan2(x, (1 - x * x).sqrt(), match=match)
 
 
-def arccos(x):
+def arccos(x, match=False):
     x = J(x)
-    return atan2((1 - x * x).sqrt(), x, match=False)
+    return atan2((1 - x * x).sqrt(), x, match=match)
 
 
 # ------------------------------------------------------------------------------------------
@@ -1018,7 +1037,8 @@ class SymNP:
         return out
 
     def arctan2(self, y, x): return self._b(atan2, y, x)
-    def hypot(self, x, y): return self._b(lambda p, q: (J(p) * J(p) + J(q) * J(q)).sqrt(), x, y)
+    def hypot(self, x, y):
+        return self._b(lambda p, q: abs(J(p)) if (J(q).isconst() and is0(z3.simplify(J(q).c0))) else (J(p) * J(p) + J(q) * J(q)).sqrt(), x, y)
 
     def _u1(self, fn, a):
         if isinstance(a, Sym) or _isnum(a):
@@ -1048,7 +1068,7 @@ class SymNP:
         return self._u1(lambda v: arcsin(v, match=getattr(C, 'match_inverse_trig', False)), a)
 
     def arccos(self, a):
-        return self._u1(arccos, a)
+        return self._u1(lambda v: arccos(v, match=getattr(C, 'match_inverse_trig', False)), a)
 
     def dot(self, a, b, out=None):
         r = np.dot(np.asarray(a, dtype=object), np.asarray(b, dtype=object))
@@ -1216,6 +1236,9 @@ class Evaluator:
             return not self.holds(ch[0], -slack)
         if k == z3.Z3_OP_IMPLIES:
             return (not self.holds(ch[0], -slack)) or self.holds(ch[1], slack)
+        if k in (z3.Z3_OP_EQ, z3.Z3_OP_IFF, z3.Z3_OP_DISTINCT) and z3.is_bool(ch[0]):
+            same = self.holds(ch[0], slack) == self.holds(ch[1], slack)
+            return same if k != z3.Z3_OP_DISTINCT else not same
         a, b = self.ev(ch[0]), self.ev(ch[1])
         if k == z3.Z3_OP_LE:
             return a <= b + slack
